@@ -16,12 +16,14 @@ CONFIG = {
     "harness": "h_c05",
     "level": "proof",
     "extra_proof_files": ["ProofsA", "ProofsB", "ProofsC"],
-    "n": {"quick": 1000, "thorough": 12000},
+    "n": {"quick": 900, "thorough": 12000},
     "shard": 150,
     "harness_timeout": {"quick": 420, "thorough": 3000},
     "rule": "designed cases (every MetaExecutor read call x {serve, error reply, refused dial, cut reply}; the Coq witnesses on a 3-node cluster x down sets x fault seeds; "
             "a 4-node family with a retry round in which one node fails and one succeeds before a successful round; multi-source statements x coordinators owning none/some/all shards) "
             "then seeded generation: worlds (2-4 nodes, 5 in thorough; 1-3 shard groups x 1-3 shards; ring placement with a replication factor or arbitrary owner subsets/orders; 0-3 points per shard) "
+            "every third world is a metadata history (odd-sized groups, truncated groups holding points after the truncation time + successor groups, deleted groups with data still on the nodes, gaps) queried with bounds at group start/end/truncation time +-1; "
+            "the expected rows come from the data (single store holding the union of the live data, all shards, time filter only), not from the metadata lookup; "
             "x per world 40 queries (statement = 1 source (45%) or 2-3 sources over measurements m/m1/m2 of one or two retention policies, 20% wrapped in a subquery; coordinator uniformly, or one owning no shard (30%), or one needing remote shards, time range = subset of groups possibly trimmed, each other node down with p=0.2, per-request fault function "
             "hash(seed,node,shard set,call index) with p in {0,25,50,80}% choosing error reply / cut inside the response / cut after j points + b bytes, 1-3 operations from "
             "CreateIterator, FieldDimensions, IteratorCost on the same mapping); distinct = distinct input description; non-trivial = at least one remote shard group",
